@@ -20,20 +20,55 @@ def get_list_fn(prog, scalar):
     return c[0]
 
 
+_ENT_CACHE = {}
+
+
 def entries(prog, scalar):
-    """[(class qname, new-expression node, statement)] in registration order, plus list of
-    statements of get_list_mms that are not a registration"""
+    """The catalogue in registration order, obtained by evaluating get_list_mms<scalar> on an empty vector with the concrete
+    vector model: whatever the function does (push_back(new X) statements, per-family helpers, tables of factory functions,
+    a registrar object), the result is the final content of the vector.
+    Returns (get_list_mms Fn, [(class qname, {'l': location of the new-expression}, None)], [descriptions of anything else the
+    function does])."""
+    key = (id(prog), scalar)
+    if key in _ENT_CACHE:
+        return _ENT_CACHE[key]
+    from . import terms
     fn = get_list_fn(prog, scalar)
+    E = terms.Evaluator(prog, scalar=scalar, noreturn=('masa_exit',))
+    E.vecmodel = True
+    E.unroll_paths = True
+    P = terms.Path()
+    fr0 = {'id': E.new_frame_id(), 'args': [], 'this': '', 'depth': 0, 'fn': None}
+    holder = {'k': 'local', 'id': -1, 'n': '@list', 't': 'std::vector<>', 'l': fn.where}
+    P.locals[(fr0['id'], -1)] = ('cvec', ())
+    fr = {'id': E.new_frame_id(), 'args': [('alias', holder, fr0)] + [('sym', p_['n']) for p_ in fn.params[1:]], 'this': '', 'depth': 0, 'fn': fn}
+    try:
+        outs = E.exec_block(terms.stmts(fn.body), [P], fr, top=True)
+    except RecursionError:
+        raise AnalysisBroken('get_list_mms<%s>: evaluation too deep' % scalar)
+    outs = [o for o in outs if o.kind != 'exit']
+    if len(outs) != 1:
+        raise AnalysisBroken('get_list_mms<%s> has %d returning paths: the catalogue depends on a run-time condition' % (scalar, len(outs)))
+    v = outs[0].locals.get((fr0['id'], -1))
+    if not (v is not None and v[0] == 'cvec'):
+        raise AnalysisBroken('get_list_mms<%s>: the content of the list could not be followed (%s)' % (scalar, terms.fmt(v)[:80] if v else None))
     out, other = [], []
-    for s in flat_stmts(fn.body):
-        e = strip(s)
-        if e.get('k') == 'call' and e.get('n') == 'push_back' and is_param(e.get('obj'), 0) and len(e['args']) == 1:
-            a = strip(e['args'][0], casts=True)
-            if a.get('k') == 'new' and not a.get('array'):
-                out.append((a['ty'], a, s))
-                continue
-        other.append(s)
-    return fn, out, other
+    for x in v[1]:
+        if x is not None and x[0] == 'new':
+            out.append((x[1], {'l': x[2], 'k': 'new', 'ty': x[1]}, None))
+        else:
+            other.append({'k': 'other', 'l': fn.where, 'what': 'list element `%s` is not a new-expression' % (terms.fmt(x)[:60] if x else None)})
+    news = [e for e in outs[0].events if e[0] == 'new']
+    if len(news) != len(out):
+        other.append({'k': 'other', 'l': fn.where, 'what': '%d objects are created but %d are listed' % (len(news), len(out))})
+    for e in outs[0].events:
+        if e[0] in ('print', 'delete', 'write-through', 'store', 'libcall', 'terminate') or (e[0] == 'write' and not str(e[1]).startswith('@')):
+            other.append({'k': 'other', 'l': e[2], 'what': 'side effect %s' % e[0]})
+    if E.trace.globals_written or E.trace.static_locals and any(True for n_, l_ in E.trace.static_locals if False):
+        other.append({'k': 'other', 'l': fn.where, 'what': 'writes a global'})
+    r = (fn, out, other)
+    _ENT_CACHE[key] = r
+    return r
 
 
 def short(cls):
